@@ -1,1 +1,90 @@
-(* Props/C08.v — to be filled *)
+(* Props/C08.v — property theorems only: trim_graph preserves the outputs as a
+   function of the inputs.  Model: Model/Trim.v (hand transcription of
+   ExcelCompiler.trim_graph, excelcompiler.py lines 501-576, tied by the
+   differential run) on the machine of Model/Graph.v.  Every theorem holds for
+   EVERY well-formed workbook W, EVERY formula semantics [sem] that never
+   computes a blank (C01's side condition (d)), EVERY state s that satisfies
+   C01's invariant (any admissible history before the trim), EVERY input list
+   I and output list O.
+
+   Vocabulary:
+     trim W sem I O s    the record (tr_wb, tr_st, tr_need, tr_frz, tr_proc):
+                         workbook and machine state after the trim (a frozen
+                         cell is an input cell of tr_wb holding the value it
+                         had; a deleted cell is not built), needed_cells,
+                         the cells that went through the freezing branch
+     build_all W sem O s the untrimmed machine after step 1 (_gen_graph(outputs))
+     io_op I O o         o is SetValue a v with a in I and v an Excel scalar, or
+                         Evaluate n with n in O
+     run_spec W sem inp h   (C01) the trace of from-scratch values of workbook W
+                         along history h, starting from the input values inp
+     anc W a n           a is a strict ancestor (transitive precedent) of n
+     late_ok             C01's side condition (c), trivial without stored results
+
+   The save/load leg of the property (to_file/from_file of the trimmed model)
+   is not modelled: oracle of harness/props/c08.py, and C03.  Inputs given as a
+   RANGE are refuted: Refuted/C08_range_input.v. *)
+From Coq Require Import List.
+From PV Require Import Lib.Py Model.Graph Model.Trim.
+From PV Require Import Proofs.C01Base Proofs.C01Inv Proofs.C01 Proofs.C08.
+Import ListNotations.
+
+(* a frozen cell is not a descendant of any input, so its from-scratch value is
+   the same under every assignment of the inputs *)
+Theorem C08_frozen_independent : forall W sem, wf W -> sem_nonblank W sem -> stored_ok W sem ->
+  forall I O s, Inv W sem s -> (forall o, In o O -> o < wb_n W) ->
+  forall f, tr_frz (trim W sem I O s) f = true ->
+    (forall a, In a I -> ~ anc W a f) /\
+    (~ In f I -> forall inp inp', (forall m, ~ In m I -> inp m = inp' m) ->
+                 spec W sem inp f = spec W sem inp' f).
+Proof. exact frozen_independent. Qed.
+Print Assumptions C08_frozen_independent.
+
+(* inputs that are input cells feeding the outputs: after the trim, ANY
+   interleaving of writes to the inputs and evaluations of the outputs returns
+   the from-scratch values of the ORIGINAL workbook under the original inputs
+   overridden by the values written so far *)
+Theorem C08_preserve : forall W sem, wf W -> sem_nonblank W sem -> stored_ok W sem ->
+  forall I O s, Inv W sem s -> (forall o, In o O -> o < wb_n W) ->
+  (forall a, In a I -> wb_input W a = true /\ exists o, In o O /\ anc W a o) ->
+  (forall a, In a I -> scalar_exact (st_cache s a) = true) ->
+  forall h, Forall (io_op I O) h ->
+    snd (run (tr_wb (trim W sem I O s)) sem (tr_st (trim W sem I O s)) h)
+    = run_spec W sem (st_cache (build_all W sem O s)) h.
+Proof. exact preserve_spec. Qed.
+Print Assumptions C08_preserve.
+
+(* ... which is exactly what the untrimmed machine returns for the same history *)
+Theorem C08_preserve_machine : forall W sem, wf W -> sem_nonblank W sem -> stored_ok W sem ->
+  forall I O s, Inv W sem s -> (forall o, In o O -> o < wb_n W) ->
+  (forall a, In a I -> wb_input W a = true /\ exists o, In o O /\ anc W a o) ->
+  (forall a, In a I -> scalar_exact (st_cache s a) = true) ->
+  inputs_exact W (st_cache s) ->
+  (forall a, In a I -> late_ok W (build_all W sem O s) a) ->
+  forall h, Forall (io_op I O) h ->
+    snd (run (tr_wb (trim W sem I O s)) sem (tr_st (trim W sem I O s)) h)
+    = snd (run W sem (build_all W sem O s) h).
+Proof. exact preserve_machine. Qed.
+Print Assumptions C08_preserve_machine.
+
+(* PARTIAL (C08_preserve_buried): inputs that may be "buried" formula cells.
+   Every input that survives the trim as an input cell of the trimmed workbook
+   (an input cell of W, or a formula cell the trim froze because it is not
+   below another input) can be written, and every evaluate of an output
+   returns the from-scratch value of the TRIMMED workbook — the workbook in
+   which the buried input is the constant written last.  Missing for the full
+   statement: that the untrimmed machine, after set_value on a formula cell,
+   returns the same values (set_value on a formula cell is outside C01's
+   theorems); that leg is covered by the differential run only (Model/Graph.v
+   against the untrimmed compiler, Model/Trim.v against the trimmed one, and
+   the oracle trimmed = untrimmed). *)
+Theorem C08_preserve_buried_partial : forall W sem, wf W -> sem_nonblank W sem -> stored_ok W sem ->
+  forall I O s, Inv W sem s -> (forall o, In o O -> o < wb_n W) ->
+  (forall a, In a I -> wb_input (tr_wb (trim W sem I O s)) a = true
+                       /\ st_built (tr_st (trim W sem I O s)) a = true
+                       /\ scalar_exact (st_cache (tr_st (trim W sem I O s)) a) = true) ->
+  forall h, Forall (io_op I O) h ->
+    snd (run (tr_wb (trim W sem I O s)) sem (tr_st (trim W sem I O s)) h)
+    = run_spec (tr_wb (trim W sem I O s)) sem (st_cache (tr_st (trim W sem I O s))) h.
+Proof. exact trimmed_coherent. Qed.
+Print Assumptions C08_preserve_buried_partial.
